@@ -240,6 +240,9 @@ def run_unit(unit, tier, seed):
         res['trusted'].append('opaque payload types generated from vendored field lists: %d' % n_opaque)
     allow_path = os.path.join(ROOT, u['template'].replace('.vrs', '.trusted'))
     have = sorted(t for t in res['trusted'] if not t.startswith('opaque payload types'))
+    for f in fnmap:
+        if f.get('isolated') and ('external_body fn %s' % f.get('gen_fn', f['fn'])) in have:
+            have.remove('external_body fn %s' % f.get('gen_fn', f['fn']))
     if os.environ.get('VERIF_WRITE_TRUSTED') == unit:
         open(allow_path, 'w').write('# trusted base of unit %s: every assumption the generated file may contain\n' % unit + '\n'.join(have) + '\n')
     if os.path.exists(allow_path):
@@ -270,17 +273,27 @@ def run_unit(unit, tier, seed):
     # inside the BODY of an extracted function) is replaced by `external_body` under the same contract, line count preserved:
     # that function's obligations are undecided, the others are still decided against its contract (verification is modular).
     isolated = []
+    res['iso_notes'] = []
+
+    def _labels_of(f):
+        return sorted(set(x for x in f['label'].split(',')) | set(l for n in range(f['gen_first'], f['gen_last'] + 1) for l in labels.get(n, [])))
+
+    # functions the extractor already had to emit as stubs (lost anchor inside the body, rewrite rule no longer applicable)
+    for f in fnmap:
+        if f.get('isolated'):
+            isolated.append(f)
+            res['iso_notes'].append({'labels': _labels_of(f), 'msg': 'body of %s can no longer be extracted mechanically (%s); kept as an assumed contract: its obligations %s are undecided'
+                                     % (f['fn'], str(f['isolated'])[:300], f['label'])})
     for _round in range(3):
-        bad = _uncompilable_bodies(r, fnmap, unit + '.rs')
-        bad = [f for f in bad if f['fn'] not in [x['fn'] for x in isolated] or f not in isolated]
-        bad = [f for f in bad if f not in isolated]
+        bad = [f for f in _uncompilable_bodies(r, fnmap, unit + '.rs') if f not in isolated]
         if not bad:
             break
         for f in bad:
             msgs = f.pop('_msgs')
+            lab = _labels_of(f)
             isolated.append(f)
-            res['undecided'].append('body of %s is outside the verifiable subset on this tree (%s); isolated under its contract: its obligations %s are undecided'
-                                    % (f['fn'], '; '.join(msgs)[:300], f['label']))
+            res['iso_notes'].append({'labels': lab, 'msg': 'body of %s is outside the verifiable subset on this tree (%s); isolated under its contract: its obligations %s are undecided'
+                                     % (f['fn'], '; '.join(msgs)[:300], f['label'])})
             for n in range(f['body_first'] - 1, f['gen_last']):
                 text_lines[n] = ''
             text_lines[f['body_first'] - 1] = '{ unimplemented!() }'
@@ -292,7 +305,7 @@ def run_unit(unit, tier, seed):
     _collect(r, res, labels, fnmap, text_lines, canaries, unit)
     if isolated:
         # nothing about an isolated function counts as discharged
-        gone = set(l for f in isolated for n in range(f['gen_first'], f['gen_last'] + 1) for l in labels.get(n, [])) | set(x for f in isolated for x in f['label'].split(','))
+        gone = set(l for f in isolated for l in _labels_of(f))
         still = set(l for n, ls in labels.items() for l in ls if not any(f['gen_first'] <= n <= f['gen_last'] for f in isolated)) | set(x for f in fnmap if f not in isolated for x in f['label'].split(','))
         res['obligations'] = [o for o in res['obligations'] if o not in gone or o in still]
     if tier == 'thorough' and not res['undecided']:
@@ -486,6 +499,8 @@ def main(argv):
     discharged = []
     for r in results:
         undecided += ['[%s] %s' % (r['unit'], x) for x in r['undecided']]
+        # an isolated function makes undecided only the properties it serves
+        undecided += ['[%s] %s' % (r['unit'], n['msg']) for n in r.get('iso_notes', []) if any(mine(l) for l in n['labels'])]
         for o, msgs in r['failed'].items():
             if mine(o) or o.startswith('lemma:') or o.startswith('unlabelled:'):
                 failed.setdefault(o, []).extend(msgs)
